@@ -378,13 +378,130 @@ Definition get_field_definition (ptype fname : string) : option field_def :=
     end
   else find_field (fields_of sch ptype) fname.
 
-(* resolve_field: one response key of one parent object.  fuel: depth of the response tree *)
-Fixpoint resolve_field (fuel : nat) (ptype : string) (source : pyval) (ppath : list pkey)
-         (key : string) (nodes : list fnode) {struct fuel} : M (option pyval) :=
+(* The pieces of resolve_field, parametrised by the function `rf` used for the fields of
+   sub-objects (the same function at a smaller fuel). *)
+Definition rfun := string -> pyval -> list pkey -> string -> list fnode -> M (option pyval).
+
+(* complete_object_value: collect_subfields + execute_fields *)
+Definition exec_sub (rf : rfun) (nodes : list fnode) (otype : string) (value : pyval)
+           (opath : list pkey) : M pyval :=
+  fun s0 =>
+    match collect_subfields COLLECT_FUEL otype nodes [] [] with
+    | None => (OCrash KeyError, s0)
+    | Some sub =>
+        match (if parent_concurrently cfg
+               then exec_fields_conc (fun k ns => rf otype value opath k ns) sub s0
+               else exec_fields_seq (fun k ns => rf otype value opath k ns) sub s0) with
+        | (OVal kv, s1) => (OVal (PDict kv), s1)
+        | (OExc l, s1) => (OExc l, s1)
+        | (OCrash e, s1) => (OCrash e, s1)
+        end
+    end.
+
+(* the leaf output coercers: scalar / enum / object / abstract *)
+Definition leaf_coercer (rf : rfun) (ptype : string) (fd : field_def) (nodes : list fnode)
+           (path : list pkey) (n : string) (v : pyval) (lpath : list pkey) : M pyval :=
+  fun s0 =>
+    match find_type sch n with
+    | Some DScalar =>
+        match v with
+        | PNone => (OVal PNone, s0)
+        | _ =>
+          match scalars sch n with
+          | Some ops =>
+              match s_output ops v with
+              | Ok r => if is_undef r then (OExc [engine_err "scalar-undefined"], s0)
+                        else (OVal r, s0)
+              | Raise OutOfFuel => (OCrash OutOfFuel, s0)
+              | Raise _ => (OExc [engine_err "scalar-coerce-output"], s0)
+              end
+          | None => (OExc [engine_err "scalar-not-callable"], s0)
+          end
+        end
+    | Some (DEnum values) =>
+        match v with
+        | PNone => (OVal PNone, s0)
+        | PStr x => if mem_str x values then (OVal v, s0)
+                    else (OExc [engine_err "enum-unknown-value"], s0)
+        | _ => (OExc [engine_err "enum-unknown-value"], s0)
+        end
+    | Some (DObject _ _) =>
+        match v with
+        | PNone => (OVal PNone, s0)
+        | _ => exec_sub rf nodes n v lpath s0
+        end
+    | Some (DInterface _) | Some (DUnion _) =>
+        match v with
+        | PNone => (OVal PNone, s0)
+        | _ =>
+          let tr :=
+            match type_resolver_kind U n ptype (fd_name fd) with
+            | TRDefault => (URet (default_type_resolver v), s0)
+            | TRCustom => (type_resolver U path n v, add_call (CTypeResolver path n v) s0)
+            end in
+          match tr with
+          | (URaise msg _ ext, s1) => (OExc [user_raise msg ext], s1)
+          | (URet t, s1) =>
+              match resolve_runtime_type n t nodes with
+              | OVal rt => exec_sub rf nodes rt v lpath s1
+              | OExc l => (OExc l, s1)
+              | OCrash e => (OCrash e, s1)
+              end
+          end
+        end
+    | Some (DInput _) | None => (OExc [engine_err "no-output-coercer"], s0)
+    end.
+
+(* resolve_field_value_or_error: coerce the arguments, call the resolver once *)
+Definition resolve_value (ptype : string) (source : pyval) (path : list pkey) (fd : field_def)
+           (node : fnode) : M pyval :=
   fun s =>
-  match fuel with
-  | O => (OCrash OutOfFuel, s)
-  | S fuel' =>
+    if String.eqb (fn_name node) "__typename" then (OVal (PStr ptype), s)
+    else
+      match coerce_arguments sch 20 (fd_args fd) (fn_loc node) (fn_args node) vs with
+      | Raise e => (OCrash e, s)
+      | Ok (_, (e :: es) as aerrs) =>
+          (OExc (map (fun ae => {| p_path := None; p_locs := Some [snd ae];
+                                   p_msg := MEngine "argument"; p_ext := false |}) aerrs), s)
+      | Ok (args, []) =>
+          if has_resolver U ptype (fd_name fd)
+          then
+            let s1 := add_call (CResolver path ptype (fd_name fd) source args) s in
+            match resolver U path ptype (fd_name fd) source args with
+            | URet v => (OVal v, s1)
+            | URaise msg _ ext => (OExc [user_raise msg ext], s1)
+            end
+          else (OVal (default_field_resolver source (fd_name fd)), s)
+      end.
+
+(* complete_value_catching_error at the field level *)
+Definition complete_field (rf : rfun) (ptype : string) (fd : field_def) (nodes : list fnode)
+           (path : list pkey) (raw : outcome pyval) : M (option pyval) :=
+  fun s1 =>
+    let completed :=
+      match raw with
+      | OExc l => (OExc l, s1)
+      | OCrash e => (OCrash e, s1)
+      | OVal v =>
+          match is_exc_value v with
+          | Some e => (OExc [e], s1)
+          | None => coerce_output nodes (leaf_coercer rf ptype fd nodes path) (fd_type fd) v path s1
+          end
+      end in
+    match completed with
+    | (OExc l, s2) =>
+        match handle_field_error l nodes path (fd_type fd) s2 with
+        | (OVal v, s3) => (OVal (Some v), s3)
+        | (OExc l', s3) => (OExc l', s3)
+        | (OCrash e, s3) => (OCrash e, s3)
+        end
+    | (OVal v, s2) => (OVal (Some v), s2)
+    | (OCrash e, s2) => (OCrash e, s2)
+    end.
+
+Definition resolve_field_body (rf : rfun) (ptype : string) (source : pyval) (ppath : list pkey)
+           (key : string) (nodes : list fnode) : M (option pyval) :=
+  fun s =>
     match nodes with
     | [] => (OCrash KeyError, s)
     | node :: _ =>
@@ -392,116 +509,18 @@ Fixpoint resolve_field (fuel : nat) (ptype : string) (source : pyval) (ppath : l
       | None => (OVal None, s)                    (* UNDEFINED_VALUE: dropped from the result *)
       | Some fd =>
         let path := ppath ++ [KName key] in
-        let exec_sub (otype : string) (value : pyval) (opath : list pkey) : M pyval :=
-          fun s0 =>
-            match collect_subfields COLLECT_FUEL otype nodes [] [] with
-            | None => (OCrash KeyError, s0)
-            | Some sub =>
-                match (if parent_concurrently cfg
-                       then exec_fields_conc (fun k ns => resolve_field fuel' otype value opath k ns) sub s0
-                       else exec_fields_seq (fun k ns => resolve_field fuel' otype value opath k ns) sub s0) with
-                | (OVal kv, s1) => (OVal (PDict kv), s1)
-                | (OExc l, s1) => (OExc l, s1)
-                | (OCrash e, s1) => (OCrash e, s1)
-                end
-            end in
-        let leaf (n : string) (v : pyval) (lpath : list pkey) : M pyval :=
-          fun s0 =>
-            match find_type sch n with
-            | Some DScalar =>
-                match v with
-                | PNone => (OVal PNone, s0)
-                | _ =>
-                  match scalars sch n with
-                  | Some ops =>
-                      match s_output ops v with
-                      | Ok r => if is_undef r then (OExc [engine_err "scalar-undefined"], s0)
-                                else (OVal r, s0)
-                      | Raise OutOfFuel => (OCrash OutOfFuel, s0)
-                      | Raise _ => (OExc [engine_err "scalar-coerce-output"], s0)
-                      end
-                  | None => (OExc [engine_err "scalar-not-callable"], s0)
-                  end
-                end
-            | Some (DEnum values) =>
-                match v with
-                | PNone => (OVal PNone, s0)
-                | PStr x => if mem_str x values then (OVal v, s0)
-                            else (OExc [engine_err "enum-unknown-value"], s0)
-                | _ => (OExc [engine_err "enum-unknown-value"], s0)
-                end
-            | Some (DObject _ _) =>
-                match v with
-                | PNone => (OVal PNone, s0)
-                | _ => exec_sub n v lpath s0
-                end
-            | Some (DInterface _) | Some (DUnion _) =>
-                match v with
-                | PNone => (OVal PNone, s0)
-                | _ =>
-                  let tr :=
-                    match type_resolver_kind U n ptype (fd_name fd) with
-                    | TRDefault => (URet (default_type_resolver v), s0)
-                    | TRCustom => (type_resolver U path n v, add_call (CTypeResolver path n v) s0)
-                    end in
-                  match tr with
-                  | (URaise msg _ ext, s1) => (OExc [user_raise msg ext], s1)
-                  | (URet t, s1) =>
-                      match resolve_runtime_type n t nodes with
-                      | OVal rt => exec_sub rt v lpath s1
-                      | OExc l => (OExc l, s1)
-                      | OCrash e => (OCrash e, s1)
-                      end
-                  end
-                end
-            | Some (DInput _) | None => (OExc [engine_err "no-output-coercer"], s0)
-            end in
-        (* resolve_field_value_or_error *)
-        let raw : outcome pyval * st :=
-          if String.eqb (fn_name node) "__typename" then (OVal (PStr ptype), s)
-          else
-            match coerce_arguments sch 20 (fd_args fd) (fn_loc node) (fn_args node) vs with
-            | Raise e => (OCrash e, s)
-            | Ok (_, (e :: es) as aerrs) =>
-                (OExc (map (fun ae => {| p_path := None; p_locs := Some [snd ae];
-                                         p_msg := MEngine "argument"; p_ext := false |}) aerrs), s)
-            | Ok (args, []) =>
-                if has_resolver U ptype (fd_name fd)
-                then
-                  let s1 := add_call (CResolver path ptype (fd_name fd) source args) s in
-                  match resolver U path ptype (fd_name fd) source args with
-                  | URet v => (OVal v, s1)
-                  | URaise msg _ ext => (OExc [user_raise msg ext], s1)
-                  end
-                else (OVal (default_field_resolver source (fd_name fd)), s)
-            end in
-        (* complete_value_catching_error *)
-        match raw with
+        match resolve_value ptype source path fd node s with
         | (OCrash e, s1) => (OCrash e, s1)
-        | (r, s1) =>
-            let completed :=
-              match r with
-              | OExc l => (OExc l, s1)
-              | OCrash e => (OCrash e, s1)
-              | OVal v =>
-                  match is_exc_value v with
-                  | Some e => (OExc [e], s1)
-                  | None => coerce_output nodes leaf (fd_type fd) v path s1
-                  end
-              end in
-            match completed with
-            | (OExc l, s2) =>
-                match handle_field_error l nodes path (fd_type fd) s2 with
-                | (OVal v, s3) => (OVal (Some v), s3)
-                | (OExc l', s3) => (OExc l', s3)
-                | (OCrash e, s3) => (OCrash e, s3)
-                end
-            | (OVal v, s2) => (OVal (Some v), s2)
-            | (OCrash e, s2) => (OCrash e, s2)
-            end
+        | (raw, s1) => complete_field rf ptype fd nodes path raw s1
         end
       end
-    end
+    end.
+
+(* resolve_field: one response key of one parent object.  fuel: depth of the response tree *)
+Fixpoint resolve_field (fuel : nat) : rfun :=
+  match fuel with
+  | O => fun _ _ _ _ _ s => (OCrash OutOfFuel, s)
+  | S fuel' => resolve_field_body (resolve_field fuel')
   end.
 
 Definition EXEC_FUEL := 40%nat.
